@@ -1182,3 +1182,74 @@ M('A-prune-bound-one-window', ['C05', 'C18'], ['C05.A', 'C18.A', 'C05.O6'], PROT
 M('A-ring-index-off-by-one', ['C06'], ['C06.A', 'C06.O3'], SPEC,
   """                self.inputs[input.frame as usize % SPECTATOR_BUFFER_SIZE][player] = input;""",
   """                self.inputs[(input.frame as usize + 1) % SPECTATOR_BUFFER_SIZE][player] = input;""", 'spectator ring written one slot further')
+
+# ---------------------------------------------------------------- round 11: access order, decode subtraction, one pair per player, one event per endpoint event
+N('independent-stores-swapped', ALL, PROTO,
+  """        self.state = ProtocolState::Synchronizing;
+        self.sync_remaining_roundtrips = NUM_SYNC_PACKETS;""",
+  """        self.sync_remaining_roundtrips = NUM_SYNC_PACKETS;
+        self.state = ProtocolState::Synchronizing;""", 'two stores to different fields swapped')
+N('reset-prediction-stores-reordered', ALL, IQ,
+  """        self.prediction.frame = NULL_FRAME;
+        self.first_incorrect_frame = NULL_FRAME;
+        self.last_requested_frame = NULL_FRAME;""",
+  """        self.last_requested_frame = NULL_FRAME;
+        self.first_incorrect_frame = NULL_FRAME;
+        self.prediction.frame = NULL_FRAME;""", 'three independent stores reversed')
+N('last-saved-read-inside-the-branch', ALL, P2P,
+  """        let last_saved = self.sync_layer.last_saved_frame();
+        if self.sparse_saving {
+            self.check_last_saved_state(last_saved, confirmed_frame, requests);""",
+  """        if self.sparse_saving {
+            let last_saved = self.sync_layer.last_saved_frame();
+            self.check_last_saved_state(last_saved, confirmed_frame, requests);""", 'the snapshot is taken inside the branch that uses it, still after the rollback')
+N('disconnect-frame-cleared-before-the-rollback', ALL, P2P,
+  """            self.adjust_gamestate(first_incorrect, confirmed_frame, requests);
+            self.disconnect_frame = NULL_FRAME;""",
+  """            self.disconnect_frame = NULL_FRAME;
+            self.adjust_gamestate(first_incorrect, confirmed_frame, requests);""", 'the pending disconnect frame (already consumed) is cleared before instead of after the rollback, which does not read it')
+N('sync-inputs-single-push', ALL, SL,
+  """            if con_stat.disconnected && con_stat.last_frame < self.current_frame {
+                inputs.push((T::Input::default(), InputStatus::Disconnected));
+            } else {
+                inputs.push(self.input_queues[i].input(self.current_frame));
+            }""",
+  """            let pair = if con_stat.disconnected && con_stat.last_frame < self.current_frame {
+                (T::Input::default(), InputStatus::Disconnected)
+            } else {
+                self.input_queues[i].input(self.current_frame)
+            };
+            inputs.push(pair);""", 'the pair is chosen by an if-expression and pushed once')
+M('O1-decode-cap-operands-swapped', ['C14', 'C08'], ['C14.O1', 'C08.O7'], COMP,
+  """        if len > MAX_DECODED_LEN - output.len() {""",
+  """        if output.len() > MAX_DECODED_LEN - len {""", 'the length read from the packet is subtracted from the cap: underflow')
+M('O2-confirmed-inputs-dangling-else', ['C03'], ['C03.O2'], SL,
+  """            if con_stat.disconnected && con_stat.last_frame < frame {
+                inputs.push(PlayerInput::blank_input(NULL_FRAME));
+            } else {""",
+  """            if con_stat.disconnected {
+                if con_stat.last_frame < frame {
+                    inputs.push(PlayerInput::blank_input(NULL_FRAME));
+                }
+            } else {""", 'the else binds to the outer test: a disconnected player with inputs for this frame gets no entry')
+M('K-order-last-saved-before-rollback', ['C04', 'C07', 'C10', 'C16', 'C02'], ['C04.K', 'C07.K', 'C10.K', 'C16.K', 'C02.K'], P2P,
+  """        let first_incorrect = self
+            .sync_layer
+            .check_simulation_consistency(self.disconnect_frame);
+        if first_incorrect != NULL_FRAME {
+            self.adjust_gamestate(first_incorrect, confirmed_frame, requests);
+            self.disconnect_frame = NULL_FRAME;
+        }
+
+        let last_saved = self.sync_layer.last_saved_frame();
+""",
+  """        let last_saved = self.sync_layer.last_saved_frame();
+        let first_incorrect = self
+            .sync_layer
+            .check_simulation_consistency(self.disconnect_frame);
+        if first_incorrect != NULL_FRAME {
+            self.adjust_gamestate(first_incorrect, confirmed_frame, requests);
+            self.disconnect_frame = NULL_FRAME;
+        }
+
+""", 'the last-saved snapshot is taken before the rollback that (with sparse saving) saves a newer state')
